@@ -553,6 +553,7 @@ package raft
 
 //@ func Raft.sendInstallSnapshot
 //@   flags inline lockheld
+//@   at before-assign request.Done assert [chunk-bounded] 0 <= n && n <= snapshotChunkSize && newval == (n < snapshotChunkSize)
 //@   at before-assign follower.nextIndex assume [A-SNAP-LABEL] newval <= Llast + 1
 
 // ===========================================================================================
@@ -740,6 +741,14 @@ package raft
 //@   ensures ioOK && !(sfWriter[dst] && sfGone[dst]) ==> err == nil
 //@   ensures n >= 0
 //@   ensures err == nil ==> sfPos[dst] == old(sfPos[dst]) + n
+//@   ensures forall g int :: g != dst && g != src ==> sfPos[g] == old(sfPos[g])
+// io.CopyN(dst, src, n): at most n bytes; io.EOF (or another error) iff fewer were copied.
+//@ extern io.CopyN(dst, src, n) (written, err)
+//@   modifies sfPos
+//@   ensures 0 <= written && written <= n
+//@   ensures err == nil ==> written == n
+//@   ensures ioOK && !(sfWriter[src] && sfGone[src]) ==> err == nil || err == io.EOF
+//@   ensures sfPos[src] == old(sfPos[src]) + written
 //@   ensures forall g int :: g != dst && g != src ==> sfPos[g] == old(sfPos[g])
 //@ extern bytes.NewReader(b) (rd)
 //@   ensures rd != nil && fresh(rd) && !sfGone[rd]
